@@ -71,7 +71,8 @@ PROPS = {
         "not_covered": ["algebraic completeness (A1)", "trim / Prover::new / quotient split index arithmetic (not yet under contract)"],
     },
     "C02": {
-        "r": [("verifier", lambda n: n.startswith("proof.") or n.startswith("verifier.verify_with_version")), ("widgets", vk_unit)],
+        "r": [("verifier", lambda n: n.startswith("proof.") or n.startswith("verifier.verify_with_version")), ("widgets", vk_unit),
+              ("permutation", lambda n: "compute_sigma_permutations" in n), ("composer_leaves", lambda n: "internal" in n)],
         "claim": "verifier-side necessary conditions of soundness only: in Proof::verify / verify_legacy the ONLY Ok path is "
                  "guarded by the pairing check on the two computed G1 elements (exit structure compared exactly); every one of the 15 "
                  "evaluations is bound in [E] with the matching batching coefficient and every opened commitment appears in [F] "
